@@ -28,10 +28,18 @@ Explained(ops, opid, v, id, c) ==
   /\ \A i \in H : ops[i].ret < c.inv => i \in S
   /\ \A i \in S : ops[i].inv < c.ret
 
-ValuesOK(ops, opid, snaps, reads) ==
+\* consistency between the order that explains the map and the values: an update that started only after some call
+\* which is ordered AFTER the reading call had returned cannot be part of what that reading call saw
+Pos(ord, i) == CHOOSE k \in DOMAIN ord : ord[k] = i
+SeenSet(ops, opid, v, id) == {i \in {p[1] : p \in {q \in opid : q[2] = id}} : HasBit(v, ops[i].v)}
+NotFromTheFuture(ops, ord, g, S) ==
+  \A i \in S : \A k \in (Pos(ord, g) + 1)..Len(ord) : ~(ops[ord[k]].ret < ops[i].inv)
+ValuesOK(ops, opid, snaps, reads, ord) ==
   /\ \A s \in snaps : LET c == ops[s[1]] IN
-        \A j \in DOMAIN c.res : Explained(ops, opid, c.res[j][2], IdOf(s[2], c.res[j][1]), c)
-  /\ \A r \in reads : Explained(ops, opid, ops[r[1]].res, r[2], ops[r[1]])
+        \A j \in DOMAIN c.res : /\ Explained(ops, opid, c.res[j][2], IdOf(s[2], c.res[j][1]), c)
+                                 /\ NotFromTheFuture(ops, ord, s[1], SeenSet(ops, opid, c.res[j][2], IdOf(s[2], c.res[j][1])))
+  /\ \A r \in reads : /\ Explained(ops, opid, ops[r[1]].res, r[2], ops[r[1]])
+                       /\ NotFromTheFuture(ops, ord, r[1], SeenSet(ops, opid, ops[r[1]].res, r[2]))
 
 \* st = [map: set of <<key, id>>, bind: set of <<t, h, id>>, nid, opid: set of <<call, id>>, snaps, reads]
 RECURSIVE Lin(_, _, _)
@@ -52,12 +60,12 @@ Apply(ops, i, st) ==
     [] OTHER -> [ok |-> FALSE, st |-> st]
 
 Lin(ops, done, st) ==
-  \/ done = DOMAIN ops /\ ValuesOK(ops, st.opid, st.snaps, st.reads)
+  \/ done = DOMAIN ops /\ ValuesOK(ops, st.opid, st.snaps, st.reads, st.ord)
   \/ \E i \in (DOMAIN ops) \ done :
         /\ \A j \in (DOMAIN ops) \ done : ~(ops[j].ret < ops[i].inv)
-        /\ LET a == Apply(ops, i, st) IN a.ok /\ Lin(ops, done \cup {i}, a.st)
+        /\ LET a == Apply(ops, i, st) IN a.ok /\ Lin(ops, done \cup {i}, [a.st EXCEPT !.ord = Append(@, i)])
 
-St0 == [map |-> {}, bind |-> {}, nid |-> 0, opid |-> {}, snaps |-> {}, reads |-> {}]
+St0 == [map |-> {}, bind |-> {}, nid |-> 0, opid |-> {}, snaps |-> {}, reads |-> {}, ord |-> <<>>]
 
 VARIABLE k
 Init == k = 1
